@@ -42,7 +42,7 @@ ASSUMPTIONS = [
     "directory-listing order is varied by wrapping os.walk / glob.iglob in the harness process (inherited by forked workers)",
 ]
 
-DIRS = ["", "sub", "sub/deep", "other"]
+DIRS = ["", "sub", "sub/deep", "other", ".cfg"]
 
 
 @st.composite
@@ -78,6 +78,12 @@ def nested_state(draw):
             files[(d + "/" if d else "") + "REUSE.toml"] = P.reuse_toml(tables)
     for i in draw(st.lists(st.sampled_from(ids + ["junk", "GPL-2.0"]), max_size=5, unique=True)):
         files[f"LICENSES/{i}.txt"] = f"text {i}\n"
+    if draw(st.integers(0, 7)) == 0:
+        # the same licence twice (with and without extension): the tool refuses such a project; it must do so
+        # the same way whatever order the directory is listed in
+        d = draw(st.sampled_from(["MIT", "ISC", "Zlib"]))
+        files[f"LICENSES/{d}.txt"] = "text\n"
+        files[f"LICENSES/{d}"] = "text\n"
     return {"kind": "nested", "files": files}
 
 
@@ -195,9 +201,17 @@ def check(ctx, c):
         spdx_args = ["spdx", "--add-license-concluded", "--creator-person", "V"]
 
         def record(name, r_lint, r_spdx, cwd):
-            for r in (r_lint, r_spdx):
-                if r.crash is not None:
-                    ctx.fail(c, f"variant {name}: crash {r.brief()}")
+            if r_lint.crash is not None or r_spdx.crash is not None:
+                # a run that ends in an error is an outcome like any other: every variant must end the same way
+                # (whether it may crash at all is C16's question); in-process the exception type is known,
+                # a fresh interpreter only shows the last line of its traceback
+                def kind(r):
+                    if r.crash is None:
+                        return "ok"
+                    t = type(r.crash).__name__
+                    return str(r.crash).split(":")[0].strip() if t == "RuntimeError" and ":" in str(r.crash) else t
+                results[name] = ({"outcome": kind(r_lint)}, {"outcome": kind(r_spdx)}, r_lint.code)
+                return
             if r_lint.code not in (0, 1) or r_spdx.code != 0:
                 ctx.fail(c, f"variant {name}: unexpected exit status lint={r_lint.code} spdx={r_spdx.code}: {r_lint.err[-300:]} {r_spdx.err[-300:]}")
             results[name] = (norm_lint(r_lint.out, cwd, root), norm_spdx(r_spdx.out), r_lint.code)
